@@ -103,12 +103,18 @@ def analyse_events(events, din=None):
             order.append(t)
         elif e['ev'] == 'open_w':
             writers[e['path']].add(t)
-    points = sorted([(starts[t], 1) for t in starts if t in ends] + [(ends[t], -1) for t in starts if t in ends])
-    cur = mx = 0
-    for _, d in points:
-        cur += d
-        mx = max(mx, cur)
-    return {'order': order, 'pids': {str(k): v for k, v in pids.items()}, 'max_concurrency': mx, 'writers': writers,
+    def peak(a, b):
+        points = sorted([(a[t], 1) for t in a if t in b] + [(b[t], -1) for t in a if t in b])
+        cur = mx = 0
+        for _, d in points:
+            cur += d
+            mx = max(mx, cur)
+        return mx
+    mx = peak(starts, ends)                  # conversions proper
+    tb = {(os.path.relpath(e['task'], din) if din else os.path.basename(e['task'])): e['t'] for e in events if e['ev'] == 'task_begin'}
+    te = {(os.path.relpath(e['task'], din) if din else os.path.basename(e['task'])): e['t'] for e in events if e['ev'] == 'task_end'}
+    mx_tasks = peak(tb, te)                  # whole tasks, injected delays included
+    return {'order': order, 'pids': {str(k): v for k, v in pids.items()}, 'max_concurrency': mx, 'max_task_concurrency': mx_tasks, 'writers': writers,
             'raised': [e for e in events if e['ev'] == 'raised']}
 
 
@@ -192,7 +198,10 @@ def run_shard(ctx, p):
                 orders.add(tuple(ev['order']))
                 assignments.add(tuple(sorted((k, tuple(v)) for k, v in ev['pids'].items())))
                 rec.maxi('max_concurrency_observed', ev['max_concurrency'])
+                rec.maxi('max_task_concurrency_observed', ev['max_task_concurrency'])
                 if ev['max_concurrency'] >= 2:
+                    rec.add('runs_with_overlapping_conversions', 1)
+                if ev['max_task_concurrency'] >= 2:
                     overlapped = True
                     rec.mon('overlapping_tasks_seen')
             shutil.rmtree(spec['dir_out'], ignore_errors=True)
